@@ -22,8 +22,13 @@ MANIFEST = dict(
          "0 <= b < nbin with b = trunc((x-min)/binsize), every sorted index stored at offset i+nbin+1, bin offsets filled for "
          "(previous bin, b], and the tail fill of the offsets past the last occupied bin must be the offset just past the last "
          "*counted* datum (not the end of all data); (3) ABI agreement between the values that reach the engine calls on every path and "
-         "the C casts / PyArg_ParseTuple format; (4) inclusive min/max filter on a stable argsort, decided per path and per "
-         "given/absent limit; (5) bin count / bin size derivations and pass-through of the public wrapper.",
+         "the C casts / PyArg_ParseTuple format, and memory layout: an array whose elements the C engine addresses through the bare "
+         "buffer pointer (not through the strides) must be freshly allocated and contiguous on every path from the public entry "
+         "points (layout provenance over the wrapper methods and instance cells); (4) inclusive min/max filter on a stable argsort, "
+         "decided per path and per given/absent limit, and for every value a given limit can have (value tests such as `min or d` / "
+         "`if min:` are split: zero is falsy); (5) bin count / bin size derivations and pass-through of the public wrapper.  The count "
+         "conditions of (2) are also checked on the C engine's own effects (every counted datum is reached through the sort index, "
+         "which carries the min/max filter, with and without reverse indices).",
     note="Not decided: counts for particular data, floating-point rounding at bin edges. Assumes LP64 (argsort/arange give int64). "
          "Trusted: clang AST, sympy normaliser, numpy argsort(kind='stable').",
     technique="static analysis: cross-language sibling comparison of guarded-effect normal forms (clang AST vs Python ast), path-sensitive value flow over the wrapper functions, format/ABI agreement",
@@ -35,7 +40,7 @@ ST = "esutil.stat.util."
 # rules that keep their verdict however the code is laid out (decided by term equality, effect analysis or per-path value
 # flow; they answer "not recognised" themselves when a construct cannot be identified); every other rule of this check is
 # a template rule (vcheck.core.Check.obt)
-SEMANTIC = ('R05.1', 'R05.2', 'R05.4')
+SEMANTIC = ('R05.1', 'R05.2', 'R05.4', 'R05.3::chist::layout')
 
 
 def run(chk):
@@ -167,6 +172,11 @@ class _CPrep:
             return [{"kind": "BinaryOperator", "opcode": "=", "type": st.get("type"), "line": st.get("line"),
                      "inner": [lhs, {"kind": "BinaryOperator", "opcode": op, "type": st.get("computeResultType", st.get("type")), "line": st.get("line"),
                                      "inner": [{"kind": "ImplicitCastExpr", "type": st.get("type"), "line": st.get("line"), "inner": [copy.deepcopy(lhs)]}, rhs]}]}]
+        if k == "BinaryOperator" and st.get("opcode") == "=" and _cu(st["inner"][1]).get("kind") == "ConditionalOperator":
+            # `x = c ? a : b;`  ->  `if (c) x = a; else x = b;`  (the value then reaches the effects as a guarded / piecewise term)
+            c, a, b = _cu(st["inner"][1])["inner"]
+            arm = lambda v: _c_compound([dict(st, inner=[copy.deepcopy(st["inner"][0]), v])], st.get("line"))
+            return self.stmt({"kind": "IfStmt", "line": st.get("line"), "inner": [c, arm(a), arm(b)]})
         if k == "IfStmt":
             inner = st["inner"]
             acc = []
@@ -628,6 +638,10 @@ class _PyPrep:
             if isinstance(c, ast.Call) and dotted_name(c.func) in ("np.add.at", "numpy.add.at") and len(c.args) == 3 and const_value(c.args[2]) == 1:
                 return self.scatter_add(c.args[0], c.args[1])
             return [st]
+        if isinstance(st, ast.Assign) and len(st.targets) == 1 and isinstance(st.value, ast.IfExp) and isinstance(st.targets[0], (ast.Name, ast.Subscript)):
+            # `x = a if c else b`  ->  `if c: x = a` / `else: x = b`
+            arm = lambda v: ast.Assign(targets=[copy.deepcopy(st.targets[0])], value=v)
+            return self.stmt(ast.If(test=st.value.test, body=[arm(st.value.body)], orelse=[arm(st.value.orelse)]), in_loop, rest)
         if isinstance(st, ast.Assign) and len(st.targets) == 1:
             t, v = st.targets[0], st.value
             if isinstance(t, (ast.Tuple, ast.List)) and len(t.elts) == 1 and isinstance(t.elts[0], ast.Name) and isinstance(v, ast.Call) and call_name(v) in ("where", "nonzero") and len(v.args) == 1:
@@ -985,6 +999,14 @@ def engines(chk, repo, py, cfn):
     if incs:
         chk.ob("R05.2", "engine::count-guard-is-valid-bin", set(incs[0].g) == COUNTED, w, "the increment is guarded by exactly 0 <= b < nbin (found %s)" % sorted(incs[0].g))
         chk.ob("R05.2", "engine::main-loop-over-all-sorted-data", incs[0].loops == (MAIN,), w, "the pass visits every sorted datum i in [0, s.size) (%s)" % list(incs[0].loops))
+    # the same three conditions on the C engine's own effects: the sort index is the only carrier of the min/max filter, so every
+    # datum the compiled engine counts must be reached through it -- with and without reverse indices
+    cw = "esutil/stat/chist_pywrap.c"
+    cinc = [e for e in EB if e.kind == "store" and e.a == "P4"]
+    ok = len(cinc) == 1 and cinc[0].n == 1 and cinc[0].i == BIN and cinc[0].v == str(nf(rd(P4, BINe) + 1)) and set(cinc[0].g) == COUNTED and cinc[0].loops == (MAIN,)
+    chk.ob("R05.2", "engine::c::counts-exactly-the-data-in-the-sort-index", ok, cw,
+           "the C engine counts hist[trunc((data[s[i]] - min)/binsize)] += 1 once for every i in [0, s.size) under 0 <= b < nbin and nothing else: the data are reached only through the "
+           "(limit-filtered) sort index, whether or not reverse indices are requested (found: %s)" % [("index " + e.i, "guards %s" % sorted(e.g), "loops %s" % list(e.loops), "x%d" % e.n) for e in cinc])
     revs = [e for e in EA if e.kind == "store" and e.a == "P5"]
     idx = [e for e in revs if e.v == str(nf(rd(P2, K0)))]
     ok = len(idx) == 1 and idx[0].n == 1 and idx[0].i == OFF and set(idx[0].g) == {DOREV} and idx[0].loops == (MAIN,)
@@ -1334,6 +1356,37 @@ def _simp(e, flags):
     return None if e is None else _Simp(flags).visit(copy.deepcopy(e))
 
 
+def _value_cases(e, flags):
+    """the values an expression can take, as [(value expression, condition text or None)]: conditional expressions and the
+    value forms `a or b` / `a and b` are split on the truth of their test.  A test the flags decide (a parameter known to be
+    None) selects one arm; a test they do not decide contributes BOTH arms -- in particular the truth value of a parameter
+    that was given: a limit is a number, and the number zero is falsy"""
+    if isinstance(e, ast.IfExp):
+        t = eval_test(e.test, flags)
+        if t is True:
+            return _value_cases(e.body, flags)
+        if t is False:
+            return _value_cases(e.orelse, flags)
+        return [(v, _why("`%s` is true" % norm(e.test), w)) for v, w in _value_cases(e.body, flags)] + \
+               [(v, _why("`%s` is false" % norm(e.test), w)) for v, w in _value_cases(e.orelse, flags)]
+    if isinstance(e, ast.BoolOp) and len(e.values) >= 2:
+        first = e.values[0]
+        rest = e.values[1] if len(e.values) == 2 else ast.BoolOp(op=e.op, values=e.values[1:])
+        t = eval_test(first, flags)
+        is_or = isinstance(e.op, ast.Or)
+        if t is not None:
+            return _value_cases(first if t is is_or else rest, flags)
+        falsy = "`%s` is falsy (zero counts as falsy)" % norm(first)
+        truthy = "`%s` is truthy" % norm(first)
+        return [(v, _why(truthy if is_or else falsy, w)) for v, w in _value_cases(first, flags)] + \
+               [(v, _why(falsy if is_or else truthy, w)) for v, w in _value_cases(rest, flags)]
+    return [(e, None)]
+
+
+def _why(a, b):
+    return a if not b else "%s and %s" % (a, b)
+
+
 def _consistent(st, flags):
     for t, truth in st.conds:
         v = eval_test(_simp(t, flags), flags)
@@ -1429,6 +1482,7 @@ def abi(chk, repo, cfn):
     nbin_p = dh.params[5] if len(dh.params) > 5 else None
     v_c, v_p, v_buf, v_size = [], [], [], []
     seen = {"c": [], "py": []}
+    c_bind = []
     for st in paths or []:
         if st.outcome == "raise":
             continue
@@ -1444,6 +1498,8 @@ def abi(chk, repo, cfn):
             continue
         kind, c, b = eng[0]
         seen[kind].append(norm(c.value))
+        if kind == "c":
+            c_bind.append(b)
         if b is None:
             v_c.append(False)                   # the C engine takes exactly six positional arguments (format "OdOdOO")
             continue
@@ -1471,20 +1527,337 @@ def abi(chk, repo, cfn):
                     casts.setdefault(o, set()).add(t)
     wantc = {names[0]: {"double*"}, names[2]: {"npy_int64*"}, names[4]: {"npy_int64*"}, names[5]: {"npy_int64*"}} if len(names) == 6 else {}
     chk.ob("R05.3", "chist::element-casts", casts == wantc, "esutil/stat/chist_pywrap.c", "C reads data as double and sort index / hist / rev as 64-bit integers (%s)" % {k: sorted(v) for k, v in casts.items()})
+    # bare-pointer element access only on arrays that are contiguous on every path
+    layout(chk, repo, cfn, names, units, dh, pe, c_bind if paths is not None else [None])
     # python-side dtype provenance of the buffers that reach the engines
     chk.ob("R05.3", "Binner._do_hist::int64-out-buffers", _verdict(v_buf), dh.where(), "hist (nbin) and rev reach the engines as freshly zeroed int64 arrays")
     chk.ob("R05.3", "Binner._do_hist::rev-size", _verdict(v_size), dh.where(), "rev has nbin+1 offsets followed by one slot per sorted datum")
     init = repo.func(ST + "Binner.__init__")
     conv = {norm(a.targets[0]): a.value for a in walk_no_nested(init.node) if isinstance(a, ast.Assign)}
-    b = pat.match("np.atleast_1d(_X).astype(_T)", conv.get("self.x")) or pat.match("np.asarray(_X, dtype=_T)", conv.get("self.x")) or \
-        pat.match("np.array(_X, dtype=_T, ndmin=1)", conv.get("self.x")) if "self.x" in conv else None
-    chk.ob("R05.3", "Binner.__init__::data-is-float64", bool(b) and norm(b["_T"]) in FLOAT64 and _is_name(b["_X"], init.params[1]), init.where(), "the binned data are converted to float64 (matches the C double read)")
+    dt = _converted(conv.get("self.x")) if "self.x" in conv else None
+    chk.ob("R05.3", "Binner.__init__::data-is-float64", dt is not None and norm(dt[0]) in FLOAT64 and _is_name(dt[1], init.params[1]), init.where(), "the binned data are converted to float64 (matches the C double read)")
     si = repo.func(ST + "Binner._get_sort_index")
     srt = [x for x in walk_no_nested(si.node) if isinstance(x, ast.Call) and call_name(x) == "argsort"]
     ok = len(srt) == 1 and _stable_argsort(srt[0])
     chk.ob("R05.4", "Binner._get_sort_index::stable-argsort", ok, si.where(), "the sort index is a stable argsort of the data (ties keep original order)")
     # the two callers of _do_hist pass float64 data and an int64 sort index
     engine_callers(chk, repo, dh)
+
+
+# ---- R05.3 memory layout ---------------------------------------------------------
+# An element of a numpy array can be addressed in C in two ways: through the strides (PyArray_GETPTR1, i.e.
+# PyArray_BYTES(a) + i * PyArray_STRIDES(a)[0]), right for every layout, or through the bare buffer pointer
+# (((T *) PyArray_DATA(a))[i]), right only when the array is C-contiguous.  Necessary condition of "the compiled engine
+# bins the data": every array the engine addresses through the bare pointer is, on every path from the public entry points,
+# a freshly allocated contiguous array -- never (a view of) an array supplied by the caller.
+_C_DATA_FUNCS = ("PyArray_DATA", "PyArray_BYTES")
+_C_STRIDE_FUNCS = ("PyArray_STRIDES", "PyArray_STRIDE")
+_C_LAYOUT_AWARE = ("PyArray_GETCONTIGUOUS", "PyArray_ContiguousFromAny", "PyArray_ContiguousFromObject", "PyArray_FROM_OTF", "PyArray_FROM_OF", "PyArray_FROM_OT",
+                   "PyArray_FROMANY", "PyArray_FromAny", "PyArray_CheckFromAny", "PyArray_FromArray", "PyArray_NewCopy", "PyArray_Copy", "PyArray_ISCONTIGUOUS",
+                   "PyArray_IS_C_CONTIGUOUS", "PyArray_ISCARRAY", "PyArray_ISCARRAY_RO", "PyArray_ISONESEGMENT", "PyArray_CHKFLAGS", "PyArray_FLAGS")
+
+
+def _c_bases(e, objs):
+    """{array object: set of 'data' / 'strides'} for the accessor calls on the engine's array arguments inside expression e"""
+    out = {}
+    for x in cfront.walk(e):
+        if x.get("kind") == "CallExpr" and len(x.get("inner", []) or []) >= 2:
+            f = cfront.callee_name(x)
+            a = cfront.strip(x["inner"][1])
+            nm = a.get("referencedDecl", {}).get("name") if a.get("kind") == "DeclRefExpr" else None
+            if nm in objs:
+                if f in _C_DATA_FUNCS:
+                    out.setdefault(nm, set()).add("data")
+                elif f in _C_STRIDE_FUNCS:
+                    out.setdefault(nm, set()).add("strides")
+    return out
+
+
+def c_array_access(cfn, objs):
+    """how the C function addresses the elements of its array arguments:
+    {object name: {'strided': [line], 'raw': [(text, line)], 'unknown': [(text, line)], 'aware': [callee]}}"""
+    body = cfront.body_of(cfn)
+    acc = {o: {"strided": [], "raw": [], "unknown": [], "aware": []} for o in objs}
+    types = {x["name"]: x.get("type", {}).get("qualType", "") for x in cfront.walk(cfn) if x.get("kind") in ("VarDecl", "ParmVarDecl") and x.get("name")}
+    # pointer variables derived from the arrays: name -> (object, 'raw' | 'elem' | 'unknown')
+    defs = []
+    for x in cfront.walk(body):
+        if x.get("kind") == "BinaryOperator" and x.get("opcode") == "=":
+            l = cfront.strip(x["inner"][0])
+            if l.get("kind") == "DeclRefExpr" and "*" in types.get(l["referencedDecl"].get("name"), ""):
+                defs.append((l["referencedDecl"]["name"], x["inner"][1]))
+        elif x.get("kind") == "VarDecl" and "*" in x.get("type", {}).get("qualType", ""):
+            init = [c for c in x.get("inner", []) or [] if isinstance(c, dict) and c.get("kind")]
+            if init:
+                defs.append((x["name"], init[-1]))
+    ptr = {}
+    for _ in range(4):
+        for nm, rhs in defs:
+            b = _c_bases(rhs, objs)
+            kinds = set()
+            for o, k in b.items():
+                if "data" in k:
+                    kinds.add((o, "elem" if "strides" in k else "raw"))
+            for r in _c_refs(rhs):
+                if r in ptr and r != nm:
+                    kinds.add((ptr[r][0], "raw" if ptr[r][1] == "raw" else "unknown"))
+            if len(kinds) == 1:
+                ptr.setdefault(nm, kinds.pop())
+            elif kinds:
+                ptr[nm] = (sorted(kinds)[0][0], "unknown")
+
+    def note(e, how, line):
+        """e: the address expression of one element access (operand of * / base of [])"""
+        for o, k in _c_bases(e, objs).items():
+            if "data" in k:
+                (acc[o]["strided"] if "strides" in k else acc[o]["raw"]).append(line if "strides" in k else ("%s(%s)" % ("PyArray_DATA", o), line))
+        for r in _c_refs(e):
+            if r in ptr:
+                o, kind = ptr[r]
+                if kind == "raw":
+                    acc[o]["raw"].append(("pointer `%s`" % r, line))
+                elif kind == "elem" and how in ("deref", "zero"):
+                    acc[o]["strided"].append(line)
+                else:
+                    acc[o]["unknown"].append(("pointer `%s`" % r, line))
+    for x in cfront.walk(body):
+        k = x.get("kind")
+        if k == "UnaryOperator" and x.get("opcode") == "*":
+            note(x["inner"][0], "deref", x.get("line"))
+        elif k == "ArraySubscriptExpr":
+            base, idx = x["inner"][0], cfront.strip(x["inner"][1])
+            if _c_bases(base, objs) and not any("data" in v for v in _c_bases(base, objs).values()):
+                continue                               # PyArray_STRIDES(a)[0] / PyArray_DIMS(a)[0]: not an element access
+            note(base, "zero" if idx.get("kind") == "IntegerLiteral" and str(idx.get("value")) == "0" else "index", x.get("line"))
+        elif k == "CallExpr":
+            f = cfront.callee_name(x) or ""
+            for a in (x.get("inner", []) or [])[1:]:
+                u = cfront.strip(a)
+                nm = u.get("referencedDecl", {}).get("name") if u.get("kind") == "DeclRefExpr" else None
+                if nm in objs and f in _C_LAYOUT_AWARE:
+                    acc[nm]["aware"].append(f)
+                elif nm in ptr and not f.startswith(("Py", "_Py", "Npy", "npy_")):
+                    # the pointer is handed to a helper, which indexes it
+                    o, kind = ptr[nm]
+                    acc[o]["raw" if kind == "raw" else "unknown"].append(("pointer `%s` passed to %s()" % (nm, f), x.get("line")))
+    return acc
+
+
+_NP = ("np", "numpy")
+_FRESH_FUNCS = ("zeros", "ones", "empty", "full", "arange", "linspace", "ascontiguousarray", "argsort", "copy", "zeros_like", "ones_like", "empty_like",
+                "where", "nonzero", "flatnonzero", "concatenate", "sort", "cumsum", "searchsorted", "digitize", "bincount", "unique")
+_VIEW_FUNCS = ("atleast_1d", "asarray", "asanyarray", "ravel", "squeeze", "reshape", "view", "array")
+
+
+def _index_is_array(i):
+    """the subscript is an index array / boolean mask (the result of the indexing is then a new array)"""
+    if isinstance(i, (ast.Compare, ast.List)):
+        return True
+    if isinstance(i, ast.BinOp) and isinstance(i.op, (ast.BitAnd, ast.BitOr)):
+        return True
+    if isinstance(i, ast.UnaryOp) and isinstance(i.op, ast.Invert):
+        return True
+    if isinstance(i, ast.Subscript) and isinstance(i.value, ast.Call) and call_name(i.value) in ("where", "nonzero"):
+        return True
+    if isinstance(i, ast.Call) and call_name(i) in ("flatnonzero", "argsort", "arange", "logical_and", "logical_or", "logical_not", "isfinite"):
+        return True
+    return False
+
+
+def fresh_contiguous(e, user, cell, depth=0):
+    """True: e is a newly allocated C-contiguous 1-d array whatever its inputs are; False: e can be the caller's array object
+    itself (or a view of it) with arbitrary strides; None: not known.  user: the names that hold caller supplied objects;
+    cell(key) -> list of verdicts for the values stored in the instance cell `self.<attr>` / `self[<key>]`"""
+    def comb(vs):
+        vs = list(vs)
+        return False if any(v is False for v in vs) else (None if not vs or any(v is None for v in vs) else True)
+    if e is None or depth > 6:
+        return None
+    if isinstance(e, (ast.IfExp, ast.BoolOp)):
+        return comb(fresh_contiguous(v, user, cell, depth + 1) for v, _ in _value_cases(e, {}))
+    if isinstance(e, ast.Name):
+        return False if e.id in user else None
+    if isinstance(e, (ast.Attribute, ast.Subscript)) and norm(e).startswith(("self.", "self[")) and not (isinstance(e, ast.Subscript) and isinstance(e.slice, ast.Slice)):
+        k = norm(e)
+        if isinstance(e, ast.Attribute) or (isinstance(e.value, ast.Name) and isinstance(e.slice, ast.Constant)):
+            return comb(cell(k))
+    if isinstance(e, ast.Subscript):
+        if isinstance(e.slice, ast.Slice):
+            b = fresh_contiguous(e.value, user, cell, depth + 1)
+            if b is False or (e.slice.step is not None and const_value(e.slice.step) != 1):
+                return False                                    # a strided view
+            return b
+        return True if _index_is_array(e.slice) else None
+    if isinstance(e, ast.Call):
+        f = e.func
+        nm = call_name(e)
+        is_np = isinstance(f, ast.Attribute) and norm(f.value) in _NP
+        recv = e.args[0] if is_np and e.args else (f.value if isinstance(f, ast.Attribute) and not is_np else None)
+        cp = kwarg(e, "copy")
+        if nm == "astype" and not is_np:
+            if kwarg(e, "order") is not None or kwarg(e, "subok") is not None:
+                return None
+            if len(e.args) >= 5:
+                cp = e.args[4]
+            if cp is None or const_value(cp) is True:
+                return True                                     # astype copies by default
+            return fresh_contiguous(recv, user, cell, depth + 1)   # copy=False: the very same array when the dtype already matches
+        if nm == "array" and is_np:
+            if kwarg(e, "order") is not None or kwarg(e, "subok") is not None:
+                return None
+            if cp is None or const_value(cp) is True:
+                return True
+            return fresh_contiguous(recv, user, cell, depth + 1)
+        if nm == "copy" and not e.args and not is_np or nm in _FRESH_FUNCS and (is_np or nm in ("argsort", "cumsum", "nonzero", "searchsorted")):
+            return True
+        if nm in _VIEW_FUNCS or nm == "require":
+            if nm == "require" and any(norm(x).find("'C'") >= 0 or norm(x).find("C_CONTIGUOUS") >= 0 for x in list(e.args[1:]) + [k.value for k in e.keywords]):
+                return True
+            return fresh_contiguous(recv, user, cell, depth + 1)
+        return None
+    if isinstance(e, ast.BinOp):
+        return True                                              # arithmetic on arrays allocates its result
+    return None
+
+
+def layout(chk, repo, cfn, names, units, dh, pe, c_bindings):
+    """R05.3 chist::layout::<role>: bare-pointer element access in C only on arrays that are fresh and contiguous on every path"""
+    objs = [n for n, u in zip(names, units) if u == "O"]
+    acc = c_array_access(cfn, set(objs))
+    cls = dh.cls
+    methods = [fi for q, fi in repo.funcs.items() if fi.cls == cls and fi.module is dh.module]
+    pcache = {}
+
+    def paths_of(fi):
+        if fi.qualname not in pcache:
+            pcache[fi.qualname] = _paths(repo, fi, opaque=(dh.name, pe.name, "_merge_last"))
+        return pcache[fi.qualname]
+    busy = set()
+
+    def cell(key):
+        """verdicts for every value a method of the class stores into the cell"""
+        if key in busy:
+            return []
+        busy.add(key)
+        try:
+            out = []
+            for fi in methods:
+                tg = []
+                for x in walk_no_nested(fi.node):
+                    if isinstance(x, ast.Assign):
+                        tg += [t for t0 in x.targets for t in rules._flat_targets(t0)]
+                    elif isinstance(x, (ast.AugAssign, ast.AnnAssign)):
+                        tg.append(x.target)
+                if not any(isinstance(t, (ast.Attribute, ast.Subscript)) and norm(t) == key for t in tg):
+                    continue
+                ps = paths_of(fi)
+                if ps is None:
+                    out.append(None)
+                    continue
+                user = set(fi.params[1:]) if not fi.name.startswith("_") or fi.name.startswith("__") else set()
+                for st in ps:
+                    v = st.env.get(key)
+                    if st.outcome == "raise" or v is None or _is_none(v):
+                        continue
+                    r = fresh_contiguous(v, user, cell)
+                    if r is False:
+                        shown.add("%s = %s  (%s)" % (key, norm(v), fi.name))
+                    out.append(r)
+            return out
+        finally:
+            busy.discard(key)
+
+    def through_callers(param):
+        """verdicts for the values the class's methods pass for `param` of the engine wrapper"""
+        out = []
+        for fi in methods:
+            if fi.node is dh.node or not any(isinstance(x, ast.Call) and norm(x.func) == "self." + dh.name for x in ast.walk(fi.node)):
+                continue
+            ps = paths_of(fi)
+            if ps is None:
+                out.append(None)
+                continue
+            for st in ps:
+                if st.outcome == "raise":
+                    continue
+                for c in st.calls:
+                    if c.name == "self." + dh.name:
+                        b = _bind(c, dh)
+                        if param not in b:
+                            out.append(None)
+                            continue
+                        user = set(fi.params[1:]) if not fi.name.startswith("_") else set()
+                        r = fresh_contiguous(b[param], user, cell)
+                        if r is False:
+                            shown.add("%s=%s  (%s)" % (param, norm(b[param]), fi.name))
+                        out.append(r)
+        return out or [None]
+    for k, obj in enumerate(names):
+        if k >= len(units) or units[k] != "O" or k >= len(pe.params):
+            continue
+        role = pe.params[k]
+        a = acc[obj]
+        key = "chist::layout::%s" % role
+        where = "esutil/stat/chist_pywrap.c"
+        if not a["raw"]:
+            if a["strided"] and not a["unknown"]:
+                chk.ob("R05.3", key, True, where, "the C engine addresses `%s` through its strides (right for every memory layout)" % obj)
+            else:
+                chk.ob("R05.3", key, None, where, "how the C engine addresses the elements of `%s` (%s)" % (obj, a["unknown"] or "no element access found"))
+            continue
+        shown = set()
+        vs = []
+        for b in c_bindings:
+            e = b.get(role) if b else None
+            if e is None:
+                vs.append(None)
+            elif isinstance(e, ast.Name) and e.id in dh.params:
+                vs.extend(through_callers(e.id))
+            elif _is_none(e):
+                continue
+            else:
+                vs.append(fresh_contiguous(e, set(), cell))
+        v = _verdict(vs) if vs else None
+        if v is False and a["aware"]:
+            v = None                                             # the C side inspects / converts the layout itself: not modelled
+        how = "%s at line %s" % a["raw"][0]
+        if v is False:
+            chk.ob("R05.3", key, False, where, "the C engine addresses the elements of `%s` through the bare buffer pointer (%s), which is only right for a C-contiguous array, "
+                   "but the array that reaches it can be the caller's own array (or a view of it) with arbitrary strides: %s -- a strided view or a record-array field is then "
+                   "binned from neighbouring memory; use the stride-aware PyArray_GETPTR1 or make a contiguous copy" % (obj, how, "; ".join(sorted(shown)) or "?"))
+        else:
+            chk.ob("R05.3", key, v, where, "`%s` is addressed through the bare buffer pointer (%s); every array that reaches it is freshly allocated and contiguous" % (obj, how))
+
+
+def _converted(e):
+    """(dtype expression, source expression) of an array conversion whose result has that dtype whatever the keywords that only
+    steer copying are: X.astype(T[, copy=..]) / np.asarray(X, dtype=T) / np.array(X, dtype=T, ...) / np.ascontiguousarray(X, dtype=T) /
+    np.require(X, T, ...), looking through np.atleast_1d / ravel on either side; else None"""
+    if not isinstance(e, ast.Call):
+        return None
+    f, nm = e.func, call_name(e)
+    is_np = isinstance(f, ast.Attribute) and norm(f.value) in _NP
+
+    def src(x):
+        while isinstance(x, ast.Call) and call_name(x) in ("atleast_1d", "ravel", "asarray", "asanyarray") and \
+                ((isinstance(x.func, ast.Attribute) and norm(x.func.value) in _NP and len(x.args) == 1 and not x.keywords) or (call_name(x) == "ravel" and not x.args)):
+            x = x.args[0] if x.args else x.func.value
+        return x
+    if nm == "astype" and not is_np and isinstance(f, ast.Attribute):
+        t = e.args[0] if e.args else kwarg(e, "dtype")
+        if t is None or len(e.args) > 1 or any(k.arg not in ("dtype", "copy") for k in e.keywords):
+            return None
+        return t, src(f.value)
+    if is_np and nm in ("asarray", "array", "ascontiguousarray", "asanyarray", "require") and e.args:
+        t = kwarg(e, "dtype") or (e.args[1] if len(e.args) > 1 else None)
+        if t is None or any(k.arg not in ("dtype", "copy", "ndmin", "requirements") for k in e.keywords):
+            return None
+        return t, src(e.args[0])
+    if is_np and nm in ("atleast_1d", "ravel") and len(e.args) == 1 and not e.keywords:
+        return _converted(e.args[0])
+    if not is_np and nm == "ravel" and isinstance(f, ast.Attribute) and not e.args and not e.keywords:
+        return _converted(f.value)
+    return None
 
 
 def _stable_argsort(c):
@@ -1672,6 +2045,7 @@ def limits(chk, repo):
     lo_p, hi_p = ("min", "max") if "min" in fi.params and "max" in fi.params else tuple(fi.params[1:3])
     v_incl, v_filt, v_def, v_org, v_appl = [], [], [], [], []
     shown = set()
+    why = {"org": set(), "incl": set(), "appl": set()}     # what exactly contradicts a rule (named constructs), for the messages
     for lo in (None, NOTNONE):
         for hi in (None, NOTNONE):
             flags = {lo_p: lo, hi_p: hi}
@@ -1686,15 +2060,30 @@ def limits(chk, repo):
                     val = _simp(env.get(cell), flags)
                     if val is None:
                         (v_def if given is None else v_org).append(None)
-                    elif given is not None:
-                        v_org.append(True if _is_name(val, par) else (False if _data_extreme(val) else None))
-                    else:
-                        d = _data_extreme(val)
-                        v_def.append(True if d == ext else (False if d is not None or _is_name(val, lo_p) or _is_name(val, hi_p) else None))
+                        continue
+                    for val, cond in _value_cases(val, flags):
+                        if given is not None:
+                            bad = not _is_name(val, par) and bool(_data_extreme(val))
+                            v_org.append(True if _is_name(val, par) else (False if bad else None))
+                            if bad:
+                                why["org"].add("with %s given, %s is `%s`%s instead of the limit" % (par, cell, norm(val), " when %s" % cond if cond else ""))
+                        else:
+                            d = _data_extreme(val)
+                            v_def.append(True if d == ext else (False if d is not None or _is_name(val, lo_p) or _is_name(val, hi_p) else None))
                 w = _simp(env.get("self['wsort']"), flags)
                 shown.add(norm(w) if w is not None else "<unset>")
                 if w is None:
                     v_filt.append(None)
+                    continue
+                wcases = _value_cases(w, flags)
+                if len(wcases) > 1:
+                    # the filter is selected by a value test that the presence of the limits does not decide
+                    unf = [c for v, c in wcases if _is_sort_index(v)]
+                    if unf and (lo is not None or hi is not None):
+                        v_appl.append(False)
+                        why["appl"].add("the unfiltered sort index is used when %s although a limit is given" % unf[0])
+                    else:
+                        v_filt.append(None)
                     continue
                 if _is_sort_index(w):
                     # unfiltered: only right when no limit was given
@@ -1740,23 +2129,33 @@ def limits(chk, repo):
                 for side, given, par, ext in (("lo", lo, lo_p, "min"), ("hi", hi, hi_p, "max")):
                     loc, hit = [], False
                     for inc, bd in found[side]:
-                        bd = _simp(bd, flags)
-                        if given is not None and _is_name(bd, par):
+                        # every value the bound can take: the limit itself, or a (vacuous) data extreme
+                        kinds = []
+                        for v, cond in _value_cases(_simp(bd, flags), flags):
+                            if given is not None and _is_name(v, par):
+                                kinds.append("limit")
+                            elif _data_extreme(v) == ext:
+                                kinds.append("extreme")    # a vacuous bound; an exclusive one would drop the extreme datum
+                                if given is not None and cond:
+                                    why["incl"].add("with %s given, the %s bound of the filter is the data extreme `%s` when %s" % (par, "lower" if side == "lo" else "upper", norm(v), cond))
+                            else:
+                                kinds.append(None)
+                        loc.append(None if None in kinds else bool(inc))
+                        if kinds and all(k == "limit" for k in kinds):
                             hit = True
-                            loc.append(bool(inc))
-                        elif _data_extreme(bd) == ext:
-                            loc.append(bool(inc))          # a vacuous bound; an exclusive one would drop the extreme datum
-                        else:
-                            loc.append(None)
                     if given is not None and not hit:
-                        loc.append(None if None in loc else False)      # the limit was given but is not applied
+                        loc.append(None if None in loc else False)      # the limit was given but is not applied (for every value it can have)
                     v_incl.extend(loc or [True])
     wh = fi.where()
-    chk.ob("R05.4", "limits::inclusive-conjunction", _verdict(v_incl), wh, "data are kept when min <= x <= max, both inclusive, in sorted order (%s)" % sorted(shown))
+
+    def because(kind, v):
+        return " -- " + "; ".join(sorted(why[kind])[:2]) if why[kind] and v is False else ""
+    chk.ob("R05.4", "limits::inclusive-conjunction", _verdict(v_incl), wh, "data are kept when min <= x <= max, both inclusive, in sorted order, for every value a given limit can have%s (%s)"
+           % (because("incl", _verdict(v_incl)), sorted(shown)))
     chk.ob("R05.4", "limits::filtered-sort-index", _verdict(v_filt), wh, "the engine's sort index is the stable sort index restricted to the kept data (%s)" % sorted(shown))
     chk.ob("R05.4", "limits::defaults-are-data-extremes", _verdict(v_def), wh, "absent limits default to the smallest / largest datum")
-    chk.ob("R05.4", "limits::engine-min-is-lower-limit", _verdict(v_org), wh, "the binning origin is the lower limit")
-    chk.ob("R05.4", "limits::filter-applied-when-a-limit-is-given", _verdict(v_appl), wh, "the filter runs whenever min or max is given")
+    chk.ob("R05.4", "limits::engine-min-is-lower-limit", _verdict(v_org), wh, "the binning origin / range is the given limit, for every value the limit can have (zero included)" + because("org", _verdict(v_org)))
+    chk.ob("R05.4", "limits::filter-applied-when-a-limit-is-given", _verdict(v_appl), wh, "the filter runs whenever min or max is given" + because("appl", _verdict(v_appl)))
 
 
 # ---- R05.5 ------------------------------------------------------------------------
